@@ -45,7 +45,7 @@ TIMEOUT = {"quick": 900, "thorough": 7200}
 EPS = 2.220446049250313e-16
 
 PLAN = {  # part -> (slices, cases per slice)
-    "quick": {"nm": (4, 150), "cdf": (2, 110), "ladder": (4, 14), "stab": (2, 16)},
+    "quick": {"nm": (6, 200), "cdf": (4, 110), "ladder": (4, 14), "stab": (2, 16)},
     "thorough": {"nm": (16, 4000), "cdf": (16, 1000), "ladder": (16, 150),
                  "stab": (16, 100)},
 }
